@@ -18,6 +18,7 @@ import multiprocessing as mp
 from . import boot
 
 CHILD_TIMEOUT = float(os.environ.get('SIMLAB_CHILD_TIMEOUT', '180'))
+_IN_CHILD = False
 
 
 class HarnessError(Exception):
@@ -36,10 +37,16 @@ def run_in_child(fn, arg, timeout=None):
         code = 0
         try:
             os.close(r)
-            try:
-                faulthandler.dump_traceback_later(timeout + 5, exit=True)
-            except Exception:
-                pass
+            global _IN_CHILD
+            if not _IN_CHILD:
+                # top-level run child: own process group, so that a wall-clock kill also takes its
+                # grandchildren (two-run checks fork each side again).  No faulthandler watchdog here:
+                # its thread does not survive fork() and re-arming it in a grandchild deadlocks.
+                _IN_CHILD = True
+                try:
+                    os.setpgid(0, 0)
+                except OSError:
+                    pass
             try:
                 res = ('ok', fn(arg))
             except BaseException:
@@ -72,9 +79,15 @@ def run_in_child(fn, arg, timeout=None):
     os.close(r)
     if timed_out:
         try:
-            os.kill(pid, signal.SIGKILL)
+            if not _IN_CHILD:
+                os.killpg(pid, signal.SIGKILL)
+            else:
+                os.kill(pid, signal.SIGKILL)
         except OSError:
-            pass
+            try:
+                os.kill(pid, signal.SIGKILL)
+            except OSError:
+                pass
         os.waitpid(pid, 0)
         raise HarnessError(f'child timed out after {timeout}s (arg={arg!r:.200})')
     _, status = os.waitpid(pid, 0)
